@@ -175,6 +175,27 @@ def gen_tower(rng):
     tail = rng.choice(["", "", " * 1m", " * 1 m", " to m", " / 1 s", " + 1 m", " * (1 %s)%s" % (u, chain), " * 2 A", " to V^2", " * 1 N", " / 3 W"])
     return q + tail
 
+def gen_multi(rng, vocab):
+    """Several parenthesised expressions in one input, some of them repeated (A, B, A), with phrases the search library refuses
+    (dangling upper-case OR / NOT / AND) among them: per-query memos and scratch buffers see the same phrase, the same unit text and the
+    same failure more than once in ONE evaluation (seed C11-h: a memo entry made before the lookup failed)."""
+    from core import multi
+    def part():
+        r = rng.random()
+        if r < 0.35:
+            e = rng.choice(multi.REFUSED)
+            return rng.choice(["%s", "%s", "%s * 2", "2 * (%s)", "%s to m", "round(%s)"]) % e
+        if r < 0.6:
+            return gen_phrase(rng, vocab)[:60].replace("(", " ").replace(")", " ")
+        return gen_structured(rng, vocab)[:80].replace("(", " ").replace(")", " ")
+    k = rng.randint(2, 5)
+    parts = [part() for _ in range(k)]
+    for _ in range(rng.randint(1, 2)):
+        i = rng.randrange(k)
+        parts[rng.randrange(k)] = parts[i]
+    sep = rng.choice([" ", " ", "", "  "])
+    return sep.join("(" + x + ")" for x in parts)
+
 def mutate(rng, s):
     toks = re.findall(r"\s+|[A-Za-z°']+|[0-9.]+(?:[eE][+-]?[0-9]+)?|.", s, re.S)
     for _ in range(rng.randint(1, 4)):
@@ -313,6 +334,8 @@ def shard(p):
         r = rng.random()
         if r < 0.015:
             inputs.append(("tower", gen_tower(rng)))
+        elif r < 0.04:
+            inputs.append(("multi", gen_multi(rng, vocab)))
         elif r < 0.05:
             inputs.append(("pumped", gen_pumped(rng, vocab)))
         elif r < 0.10:
